@@ -1,7 +1,7 @@
 SPECIFICATION GSpec
 CONSTANTS
   Thr = {1, 2}
-  NObj = 3
+  NObj = 2
   NCell = 1
   NWCell = 1
   Fld = {1}
@@ -14,7 +14,7 @@ CONSTANTS
   ExpAge = 3
   CasAge = 3
   OpsEnabled = {"new", "drop", "upgrade", "downgrade", "dropweak", "wclone", "wsnap", "wsupgrade", "counted", "pin", "collect"}
-  Scen = "weak"
+  Scen = "empty"
   Fix = {"pin", "inc", "mark", "stamp", "wmany", "newmany0"}
   Mut = {}
   GenDepth = 90
